@@ -216,12 +216,31 @@ def scaled_attr(kind, op, tag, diag):
     return ["C04"]
 
 
+# ---------------------------------------------------------------------------------------------
+# rounding family (C08 division, other operators; C09 narrowing conversions)
+
+def rounding_jobs(tier):
+    jobs = []
+    for lhs in range(8):
+        jobs.append(dict(src="h_rounding.cpp", cc="gcc", tag="rnd-gcc-%d" % lhs, defines=["LHS_INDEX=%d" % lhs]))
+        if tier == "thorough" or (lhs + vlib.seed()) % 4 == 0:
+            jobs.append(dict(src="h_rounding.cpp", cc="clang", tag="rnd-clang-%d" % lhs, defines=["LHS_INDEX=%d" % lhs]))
+    return jobs
+
+
+def rounding_attr(kind, op, tag, diag):
+    return ["C09"] if kind == "RConv" else ["C08"]
+
+
 FAMILIES = {
+    "rounding": dict(jobs=rounding_jobs, attr=rounding_attr),
     "overflow": dict(jobs=overflow_jobs, attr=overflow_attr),
     "scaled": dict(jobs=scaled_jobs, attr=scaled_attr),
 }
 
 MCS = {
+    "rounding": dict(module="mc/MC_Rounding.tla", cfg_quick="mc/MC_Rounding_quick.cfg",
+                     cfg_thorough="mc/MC_Rounding_thorough.cfg", xmx="8g", timeout=2400),
     "overflow": dict(module="mc/MC_Overflow.tla", cfg_quick="mc/MC_Overflow_quick.cfg",
                      cfg_thorough="mc/MC_Overflow_thorough.cfg", xmx="8g", timeout=2400),
 }
@@ -279,6 +298,32 @@ CHECKS = {
                "exactly as sign/mantissa/exponent), identity for the round trips.",
                "radix-10 <-> floating point is not judged (double rounding through an inexact power of ten); NaN/inf not "
                "generated; source values outside the destination range are skipped"),
+    "C08": chk(["rounding"], ["rounding"],
+               "events = a / b under a rounding tag via operate<divide_op,Tag> and rounding_integer<Rep,Tag>, operand types "
+               "8..64 bit of both signedness (quick: four divisor types per dividend type), dividends directed at ties and "
+               "near-ties k*b +/- floor(b/2) +/- {0,1} + TLC boundary sets; +,-,*,% under a rounding tag; non-trivial = "
+               "non-zero remainder",
+               "TLA+ spec (SemRounding.RoundQ ideal rounding over unbounded integers; AsCodedRounding as-coded formulas "
+               "through CxxInt) checked by TLC: trace validation of recorded executions + exhaustive small-machine model "
+               "check MC_Rounding",
+               "TLC recomputes the exact rational a/b rounded per mode for every recorded division and compares with the "
+               "logged quotient; other operators must equal the built-in ones (CxxInt); rejected events must equal the as-coded "
+               "model to count as the listed known finding; MC_Rounding proves on a scaled-down machine that the formulas only "
+               "deviate where the bias leaves the promoted type.",
+               "mixed-signedness operand pairs are judged only where the usual conversions leave both values unchanged "
+               "(reading decision, DESIGN 6.0)"),
+    "C09": chk(["rounding"], [],
+               "events = convert<RoundingTag, Dest>(src) for float/double/long double sources (ties k+0.5, quarter points and "
+               "both floating neighbours of each, scaled to the destination unit) into 8..64-bit integers and scaled_integers, "
+               "and finer -> coarser scaled_integer (radix 2 and 10; every residue for small values, boundary sets, random); "
+               "non-trivial = digits are lost",
+               "TLA+ spec (SemRounding: exact dyadic/decimal source value, RoundQ per mode) evaluated by TLC on every recorded "
+               "conversion (trace validation); floats logged exactly as sign/mantissa/exponent",
+               "the logged destination representation must be the multiple of the destination resolution selected by the mode "
+               "from the exact source value, for every source whose rounded result is representable.",
+               "conversion forms that do not compile in the library (scaled -> plain integer under nearest, non-narrowing "
+               "scaled -> scaled under nearest) are not exercised; rounding_integer/static_number construction is covered "
+               "through C11's histories"),
     "C06": chk(["overflow"], ["overflow"],
                "events = one tagged operation (operate<Op,Tag>, overflow_integer operators, convert<Tag,Dest>) on a pair of "
                "built-in integer types x operand values (8-bit lhs exhaustive x TLC boundary set; wider: TLC boundary set^2 + "
